@@ -88,6 +88,7 @@ type c01Send struct {
 	To   []byte
 	Data []byte
 	OK   bool
+	Seq  int // rank of this submission among the successful ones, in order of completion (0: it failed)
 }
 type c01Write struct {
 	H           int
@@ -159,9 +160,10 @@ func (s *c01Store) CheckBidderAllowance(_ context.Context, a common.Address) boo
 }
 
 type c01Evm struct {
-	mu    sync.Mutex
-	sends []c01Send
-	ok    bool
+	mu     sync.Mutex
+	sends  []c01Send
+	ok     bool
+	okRank int
 	// concurrent-store: every Send parks at ENTRY, before it reads any field of the request (as the real
 	// EvmClient does: it takes its mutex and asks the node for the nonce first), announces itself on
 	// arrived and continues when its turn channel is closed
@@ -184,7 +186,12 @@ func (e *c01Evm) Send(_ context.Context, tx *evmclient.TxRequest) (common.Hash, 
 	if tx.To != nil {
 		to = append([]byte{}, tx.To.Bytes()...)
 	}
-	e.sends = append(e.sends, c01Send{To: to, Data: append([]byte{}, tx.CallData...), OK: e.ok})
+	seq := 0
+	if e.ok {
+		e.okRank++
+		seq = e.okRank
+	}
+	e.sends = append(e.sends, c01Send{To: to, Data: append([]byte{}, tx.CallData...), OK: e.ok, Seq: seq})
 	if !e.ok {
 		return common.Hash{}, errors.New("verif: chain client refuses")
 	}
@@ -955,8 +962,10 @@ func c01Coq(id int, in c01In, obs c01Obs) string {
 		signed = append(signed, coqBytes(d))
 	}
 	sends := []string{}
+	seqs := []string{}
 	for _, s := range obs.Sends {
 		sends = append(sends, "("+coqBytes(s.To)+", "+coqBytes(s.Data)+", "+coqBool(s.OK)+")")
+		seqs = append(seqs, coqN(uint64(s.Seq)))
 	}
 	writes := []string{}
 	for _, w := range obs.Writes {
@@ -977,7 +986,7 @@ func c01Coq(id int, in c01In, obs c01Obs) string {
 	}
 	return coqRecord("id", coqN(uint64(id)), "mode", coqN(uint64(obs.Mode)), "contract", coqBytes(contract), "evs", coqList(obs.Events),
 		"timed_at", timed, "evs_after", coqList(obs.EventsAfter),
-		"ob", coqRecord("o_rets", coqList(rets), "o_signed", coqList(signed), "o_sends", coqList(sends),
+		"ob", coqRecord("o_rets", coqList(rets), "o_signed", coqList(signed), "o_sends", coqList(sends), "o_send_seq", coqList(seqs),
 			"o_writes", coqList(writes), "o_asked", coqList(asked), "o_pending", "0%N"))
 }
 
